@@ -187,6 +187,12 @@ def extra_objects():
         for k, v in c.items():
             cont[ren[k]] = rn(v)
     out.append(("observed-data-all-scos", "2.0", g20.observed_data_with(cont), False))
+    # containers whose members the library cannot turn into objects (unregistered observable types, kept as dicts)
+    out.append(("observed-data-20-unregistered-member", "2.0", g20.observed_data_with({"0": {"type": "x-unknown-sco", "foo": 1, "nested": {"a": [1.5]}}, "1": {"type": "directory", "path": "p"}}), True))
+    od21 = g21.minimal("objects:observed-data")
+    od21.pop("object_refs", None)
+    od21["objects"] = {"0": {"type": "x-unknown-sco", "spec_version": "2.1", "id": "x-unknown-sco--" + U + "0a", "foo": 1}}
+    out.append(("observed-data-21-unregistered-member", "2.1", od21, True))
     return out
 
 
@@ -392,6 +398,13 @@ def run_case(case, part):
                 part.violation("C01/extra-object-refused/%s" % label, "a hand-written object of the C01 menu is refused", case, "accepted", "%s: %s" % (type(e).__name__, str(e)[:150]))
                 return
             roundtrip(obj, version, model.spec(version).key_for_type(j["type"]), label, part, case, options)
+            # text -> object -> text: the first serialization denotes the hand-written input (nothing lost, changed or invented), up to spec-default optionals
+            try:
+                out = json.loads(obj.serialize())
+                for path, dkind, exp, obs in harness.subset_diff(j, out, version, model.spec(version).key_for_type(j["type"]))[:3]:
+                    part.violation("C01/input-not-reproduced/%s/%s" % (dkind, label), "serializing the parsed input does not denote the input JSON value", dict(case, path=path), exp, obs)
+            except harness.lib_errors():
+                pass
     elif kind == "programmatic":
         # objects that exist only through constructors (not through parse): custom classes declared with extension_name, built WITHOUT passing 'extensions'
         R = stix2.registry.STIX2_OBJ_MAPS["2.1"]
